@@ -448,3 +448,159 @@ theorem C09_specUtil_rows :
   refine ⟨?_, ?_, ?_, ?_, ?_, ?_, ?_, ?_, ?_, ?_⟩ <;> rfl
 
 end Primaite.Obs
+
+/-! ## threshold validation: translated `_validate_thresholds`, the setters, and what a BUILT tree therefore satisfies -/
+
+namespace Primaite.Obs
+open Primaite.Gen
+
+/-- the translated body of `AbstractObservation._validate_thresholds` accepts a triple exactly when the model's `Thr.valid` does
+(for EVERY triple of integers) -/
+theorem C09_gen_validate_thresholds (t : Thr) : ObsTables.validateThresholds [t.low, t.med, t.high] = t.valid := by
+  simp only [ObsTables.validateThresholds, ObsTables.pyGetI, Thr.valid, List.length_cons, List.length_nil, List.range', List.all_cons,
+    List.all_nil]
+  by_cases h1 : t.low < t.med <;> by_cases h2 : t.med < t.high <;> simp [h1, h2] <;> omega
+
+/-- `Thr.valid` is the decidable form of the construction invariant `Thr.Ok` that `C09_band_eq_code` needs -/
+theorem Thr.valid_iff (t : Thr) : t.valid = true ↔ t.Ok := by
+  simp [Thr.valid, Thr.Ok]
+
+theorem thrDefault_valid : thrDefault.valid = true := by decide
+
+theorem mem_padTo_c09 {α} {n : Nat} {d x : α} {xs : List α} (h : x ∈ padTo n d xs) : x = d ∨ x ∈ xs := by
+  unfold padTo at h
+  rcases List.mem_append.mp (List.mem_of_mem_take h) with h | h
+  · exact Or.inr h
+  · exact Or.inl (List.eq_of_mem_replicate h)
+
+theorem padTo_zero_nil {α} (d : α) : padTo 0 d ([] : List α) = [] := by simp [padTo]
+
+/-- a host whose constructors all passed the validation holds only strictly ascending triples (what it keeps after truncation is a
+subset of what was constructed, its own padding slots carry the class defaults) -/
+theorem C09_host_built_thr_valid (thr : ThrCfg) (c : NodesCfg) (h : HostCfg) (o : HostObs) (hb : h.build thr c = some o)
+    (hv : h.ctorThrValid (h.eff thr c) = true) : o.thrValid = true := by
+  unfold HostCfg.build at hb
+  split at hb
+  · next ns na nf nfi nn h1 h2 h3 h4 h5 =>
+    injection hb with hb
+    subst hb
+    simp only [HostCfg.ctorThrValid, Bool.and_eq_true, Bool.or_eq_true, List.all_eq_true, h4, h5, Option.getD_some] at hv
+    obtain ⟨⟨hva, hvf⟩, hvn⟩ := hv
+    simp only [HostObs.thrValid, HostCfg.obs, Bool.and_eq_true, List.all_eq_true]
+    refine ⟨⟨?_, ?_⟩, ?_⟩
+    · intro a ha
+      rcases mem_padTo_c09 ha with rfl | ha
+      · exact thrDefault_valid
+      · rcases hva with hva | hva
+        · cases hl : h.apps with
+          | nil => simp [hl] at ha
+          | cons _ _ => simp [hl] at hva
+        · obtain ⟨_, _, rfl⟩ := List.mem_map.mp ha
+          exact hva
+    · intro f hf x hx
+      rcases mem_padTo_c09 hf with rfl | hf
+      · simp only [padFolder] at hx
+        rw [List.eq_of_mem_replicate hx]
+        exact thrDefault_valid
+      · obtain ⟨fc, hfc, rfl⟩ := List.mem_map.mp hf
+        simp only [FolderCfg.obs] at hx
+        rcases hvf fc hfc with hvf | hvf
+        · simp only [Bool.and_eq_true, List.isEmpty_iff, beq_iff_eq] at hvf
+          rw [hvf.1, hvf.2, List.map_nil, padTo_zero_nil] at hx
+          cases hx
+        · rcases mem_padTo_c09 hx with rfl | hx
+          · exact hvf
+          · obtain ⟨_, _, rfl⟩ := List.mem_map.mp hx
+            exact hvf
+    · intro n hn
+      rcases mem_padTo_c09 hn with rfl | hn
+      · exact thrDefault_valid
+      · rcases hvn with hvn | hvn
+        · simp only [Bool.and_eq_true, List.isEmpty_iff, beq_iff_eq] at hvn
+          rw [hvn.1, hvn.2] at hn
+          simp [autoNics, rangeFrom] at hn
+        · rcases List.mem_append.mp hn with hn | hn
+          · obtain ⟨_, _, rfl⟩ := List.mem_map.mp hn
+            exact hvn
+          · simp only [autoNics] at hn
+            obtain ⟨_, _, rfl⟩ := List.mem_map.mp hn
+            exact hvn
+  · exact absurd hb (by simp)
+
+theorem allSome_forall2 {α β} (f : α → Option β) : ∀ (xs : List α) (ys : List β), allSome f xs = some ys →
+    ∀ y ∈ ys, ∃ x ∈ xs, f x = some y
+  | [], ys, h => by simp [allSome] at h; subst h; simp
+  | x :: xs, ys, h => by
+    unfold allSome at h
+    cases h1 : f x with
+    | none => simp [h1] at h
+    | some y0 =>
+      cases h2 : allSome f xs with
+      | none => simp [h1, h2] at h
+      | some ys0 =>
+        simp [h1, h2] at h
+        subst h
+        intro y hy
+        rcases List.mem_cons.mp hy with rfl | hy
+        · exact ⟨x, by simp, h1⟩
+        · obtain ⟨x', hx', hfx⟩ := allSome_forall2 f xs ys0 h2 y hy
+          exact ⟨x', by simp [hx'], hfx⟩
+
+mutual
+/-- **every threshold triple inside an object that `ObservationManager` built is strictly ascending** — the construction invariant
+`Thr.Ok` that `C09_band_eq_code` and the `*_eq_spec` theorems carry is now a consequence of the (translated) validation -/
+theorem C09_built_thr_valid (thr : ThrCfg) : ∀ (r : RawObs) (o : Obs), r.build thr = some o → r.ctorThrValid thr = true → o.thrValid = true
+  | .null, o, hb, _ => by simp [RawObs.build] at hb; subst hb; rfl
+  | .links refs, o, hb, _ => by simp [RawObs.build] at hb; subst hb; rfl
+  | .nodes c, o, hb, hv => by
+    simp only [RawObs.build, Option.map_eq_some_iff] at hb
+    obtain ⟨n, hn, rfl⟩ := hb
+    simp only [RawObs.ctorThrValid, NodesCfg.ctorThrValid, List.all_eq_true] at hv
+    simp only [Obs.thrValid, List.all_eq_true]
+    unfold NodesCfg.build at hn
+    split at hn
+    · split at hn
+      · next hs rs fs hh _ _ =>
+        injection hn with hn
+        subst hn
+        intro ho hho
+        obtain ⟨hc, hhc, hbuild⟩ := allSome_forall2 _ _ _ hh ho hho
+        exact C09_host_built_thr_valid thr c hc ho hbuild (hv hc hhc)
+      · exact absurd hn (by simp)
+    · exact absurd hn (by simp)
+  | .nested cs, o, hb, hv => by
+    simp only [RawObs.build, Option.map_eq_some_iff] at hb
+    obtain ⟨os, hos, rfl⟩ := hb
+    exact C09_built_thr_validL thr cs os hos hv
+theorem C09_built_thr_validL (thr : ThrCfg) : ∀ (cs : List (String × RawObs)) (os : List (String × Obs)),
+    RawObs.buildL thr cs = some os → RawObs.ctorThrValidL thr cs = true → Obs.thrValidL os = true
+  | [], os, hb, _ => by simp [RawObs.buildL] at hb; subst hb; rfl
+  | c :: cs, os, hb, hv => by
+    unfold RawObs.buildL at hb
+    simp only [RawObs.ctorThrValidL, Bool.and_eq_true] at hv
+    cases h1 : c.2.build thr with
+    | none => simp [h1] at hb
+    | some o =>
+      cases h2 : RawObs.buildL thr cs with
+      | none => simp [h1, h2] at hb
+      | some os0 =>
+        simp [h1, h2] at hb
+        subst hb
+        simp only [Obs.thrValidL, Bool.and_eq_true]
+        exact ⟨C09_built_thr_valid thr c.2 o h1 hv.1, C09_built_thr_validL thr cs os0 h2 hv.2⟩
+end
+
+/-- non-vacuity and the rejection: one listed application with `medium ≤ low` is refused even with `num_applications: 0` (it is
+constructed, validated, then truncated away) — exactly what the real constructor does -/
+example : (thrApp (some { app := some { low := 1, med := 1, high := 5 } })).valid = false := by decide
+
+/-- the constructors hand `[low, medium, high]` of their own key to their setter, the setter validates exactly these three positions
+and assigns low / med / high from positions 0 / 1 / 2 only under the validation; a missing key takes the class defaults -/
+theorem C09_gen_threshold_setters :
+    ObsTables.thresholdSetters = [
+      ("ApplicationObservation", "app_executions", "class-defaults", ["low", "medium", "high"], [0, 1, 2], [("low", 0), ("med", 1), ("high", 2)]),
+      ("FileObservation", "file_access", "class-defaults", ["low", "medium", "high"], [0, 1, 2], [("low", 0), ("med", 1), ("high", 2)]),
+      ("NICObservation", "nmne", "class-defaults", ["low", "medium", "high"], [0, 1, 2], [("low", 0), ("med", 1), ("high", 2)])] := by
+  rfl
+
+end Primaite.Obs
